@@ -45,10 +45,15 @@ def main():
         _inj.EnvTaint.install()
         if os.environ.get("VP_NO_OSSL_RIPEMD") == "1":
             _inj.no_openssl_ripemd160()
+        if os.environ.get("VP_DEBUG_LOGGING") == "1":
+            import logging
+            logging.getLogger().setLevel(logging.DEBUG)
+            logging.getLogger().addHandler(logging.NullHandler())
+            logging.lastResort = logging.NullHandler()
         load_repo()
         ctx.extra["backend"] = backend()
         ctx.extra["interpreter_configurations"] = ["optimize=%d hashseed=%s openssl_ripemd160=%s%s" % (
-            sys.flags.optimize, os.environ.get("PYTHONHASHSEED", "random"), "no" if os.environ.get("VP_NO_OSSL_RIPEMD") == "1" else "yes",
+            sys.flags.optimize, os.environ.get("PYTHONHASHSEED", "random"), "no" if os.environ.get("VP_NO_OSSL_RIPEMD") == "1" else "yes" + (" logging=DEBUG" if os.environ.get("VP_DEBUG_LOGGING") == "1" else ""),
             (" env=" + os.environ["VP_EXTRA_ENV"]) if os.environ.get("VP_EXTRA_ENV") else "")]
         from . import inject
         reach = inject.Reach().start()
